@@ -55,6 +55,9 @@ def references(site: driver.Site, root: str, sel: bytes) -> typing.Dict[str, byt
 DIR_NAMES = [None, "100%", "plain", "%s and %d%%", "{0} {name}", "it's \"q\"", "caf\udce9", None]
 
 
+CACHE_AGES = [0, 0.7, 0, 5, 90, 0, 900]
+
+
 def prefix_enumeration(chk: Check, sc: Scratch, idx: int, n_entries: int, stride: int, handlers, hl_name: str,
                        dirname: typing.Optional[str] = None) -> None:
     rng = chk.subrng("dir", idx)
@@ -82,9 +85,16 @@ def prefix_enumeration(chk: Check, sc: Scratch, idx: int, n_entries: int, stride
         cases = [("prefix", k, full[:k]) for k in cuts]
         cases.append(("zero-filled", size, b"\0" * size))
         cases.append(("garbage-tail", size, full[:size // 2] + b"\xff" * (size - size // 2)))
+        import time
         for j, (kind, k, content) in enumerate(cases):
             with open(cpath, "wb") as fp:
                 fp.write(content)
+            # how long ago the writer died: just now, or some part of the lifetime (1000 s) ago -- still a fresh file
+            age = CACHE_AGES[(j // len(VIEWS) + j) % len(CACHE_AGES)]
+            if age:
+                now = time.time()
+                os.utime(cpath, (now - age, now - age))
+                chk.count("damaged_caches_older_than_a_moment")
             view = VIEWS[j % len(VIEWS)]
             req, tls = reqs.render(view, selb)
             r = site.request(req, tls=tls)
